@@ -120,3 +120,77 @@ Proof.
   - rewrite (tab_find_build _ _ _ E). apply twap_log_fast_eq.
   - apply twap_log_fast_eq.
 Qed.
+
+(* ---- twap_log is defined and small on every positive price up to 2^130 (so on every recordable price) ---- *)
+Lemma norm_up_total fuel : forall x y, 0 < x -> P36 <= x * 2 ^ Z.of_nat fuel ->
+  exists x' y', log2_norm_up fuel x y = Some (x', y') /\ P36 <= x' /\ y - Z.of_nat fuel * P36 <= y' <= y /\
+                (x < P36 -> x' < 2 * P36) /\ (P36 <= x -> x' = x).
+Proof.
+  induction fuel as [|f IH]; intros x y Hx Hp.
+  - cbn [log2_norm_up]. change (2 ^ Z.of_nat 0) with 1 in Hp. rewrite Z.mul_1_r in Hp.
+    destruct (x <? P36) eqn:E; [lia|]. exists x, y. repeat split; lia.
+  - cbn [log2_norm_up]. destruct (x <? P36) eqn:E.
+    + rewrite Z.shiftl_mul_pow2 by lia. change (2 ^ 1) with 2.
+      destruct (IH (x * 2) (y - P36) ltac:(lia)) as (x' & y' & H1 & H2 & H3 & H4 & H5).
+      { rewrite Nat2Z.inj_succ, Z.pow_succ_r in Hp by lia. lia. }
+      exists x', y'. split; [assumption|]. split; [assumption|]. split; [rewrite Nat2Z.inj_succ; lia|].
+      split; [|lia]. intros _. destruct (Z_lt_ge_dec (x * 2) P36) as [Hlt|Hge]; [auto|]. rewrite (H5 ltac:(lia)). lia.
+    + exists x, y. assert (0 < P36) by reflexivity. repeat split; try lia; nia.
+Qed.
+
+Lemma norm_down_total fuel : forall x y, P36 <= x -> x < 2 ^ Z.of_nat fuel * two_bd ->
+  exists x' y', log2_norm_down fuel x y = Some (x', y') /\ in_range x' /\ y <= y' <= y + Z.of_nat fuel * P36.
+Proof.
+  induction fuel as [|f IH]; intros x y Hx Hp.
+  - cbn [log2_norm_down]. change (2 ^ Z.of_nat 0) with 1 in Hp. rewrite Z.mul_1_l in Hp.
+    destruct (x >=? two_bd) eqn:E; [lia|]. exists x, y. unfold in_range. repeat split; lia.
+  - cbn [log2_norm_down]. destruct (x >=? two_bd) eqn:E.
+    + rewrite shiftr1. rewrite two_bd_val in *.
+      destruct (IH (x / 2) (y + P36)) as (x' & y' & H1 & H2 & H3).
+      { apply Z.div_le_lower_bound; lia. }
+      { rewrite Nat2Z.inj_succ, Z.pow_succ_r in Hp by lia. apply Z.div_lt_upper_bound; lia. }
+      exists x', y'. split; [assumption|]. split; [assumption|]. rewrite Nat2Z.inj_succ. assert (0 < P36) by reflexivity. nia.
+    + exists x, y. unfold in_range. assert (0 < P36) by reflexivity. repeat split; try lia; nia.
+Qed.
+
+Lemma log2_loop_total n : forall x y b, in_range x -> 0 <= b ->
+  exists y', log2_loop n x y b = Some y' /\ y <= y' <= y + 2 * b.
+Proof.
+  induction n as [|n IH]; intros x y b Hx Hb; cbn [log2_loop]; [exists y; split; [reflexivity|lia]|].
+  destruct (square_range x Hx) as [Hc _]. cbv zeta in Hc. rewrite Hc.
+  pose proof (step_range x Hx) as Hs. cbv zeta in Hs.
+  assert (0 <= Z.shiftr b 1 /\ 2 * Z.shiftr b 1 <= b) as [Hb1 Hb2].
+  { rewrite shiftr1. split; [apply Z.div_pos; lia|]. pose proof (Z.mul_div_le b 2 ltac:(lia)). lia. }
+  destruct (bd_mul x x >=? two_bd).
+  - destruct (IH _ (y + b) (Z.shiftr b 1) Hs Hb1) as (y' & H1 & H2). exists y'. split; [assumption|lia].
+  - destruct (IH _ y (Z.shiftr b 1) Hs Hb1) as (y' & H1 & H2). exists y'. split; [assumption|lia].
+Qed.
+
+Lemma one_half_val : one_half_bd = 500000000000000000000000000000000000.
+Proof. vm_compute. reflexivity. Qed.
+
+Theorem twap_log_total p : 0 < p <= 2 ^ 130 * P18 ->
+  exists l, twap_log p = Some l /\ - (200 * P18) <= l <= 1300 * P18.
+Proof.
+  intros [Hp1 Hp2]. unfold twap_log. destruct (p =? 0) eqn:E; [lia|].
+  unfold log_base2, bd_from_dec. assert (P18 = 10 ^ 18) as H18 by reflexivity. assert (P36 = P18 * P18) as H36 by reflexivity.
+  assert (0 < P18) by (rewrite H18; lia).
+  destruct (p * P18 <=? 0) eqn:E0; [nia|].
+  destruct (norm_up_total 200 (p * P18) 0 ltac:(nia)) as (x1 & y1 & N1 & N2 & N3 & N4 & N5).
+  { assert (P18 <= 2 ^ Z.of_nat 200) by (rewrite H18; vm_compute; discriminate). nia. }
+  rewrite N1.
+  destruct (norm_down_total 1200 x1 y1 N2) as (x2 & y2 & D1 & D2 & D3).
+  { destruct (Z_lt_ge_dec (p * P18) P36) as [Hlt|Hge].
+    - specialize (N4 Hlt). rewrite two_bd_val. assert (1 <= 2 ^ Z.of_nat 1200) by (vm_compute; discriminate). nia.
+    - rewrite (N5 ltac:(lia)). rewrite two_bd_val.
+      assert (2 ^ 130 * P18 * P18 < 2 ^ Z.of_nat 1200 * (2 * P36)) by (rewrite H36, H18; vm_compute; reflexivity). nia. }
+  rewrite D1.
+  destruct (log2_loop_total log2_iterations x2 y2 one_half_bd D2 ltac:(rewrite one_half_val; lia)) as (y' & L1 & L2).
+  rewrite L1. exists (bd_to_dec y'). split; [reflexivity|].
+  rewrite one_half_val in L2. unfold bd_to_dec.
+  assert (- (200 * P36) <= y' <= 1201 * P36 + P36) as Hy.
+  { change (Z.of_nat 200) with 200 in N3. change (Z.of_nat 1200) with 1200 in D3. rewrite H36, H18 in *. lia. }
+  split.
+  - assert (- (200 * P18) <= Z.quot y' P18); [|lia]. apply Z.quot_le_lower_bound; [lia|]. rewrite H36 in Hy. lia.
+  - assert (Z.quot y' P18 <= 1300 * P18); [|lia]. apply Z.quot_le_upper_bound; [lia|]. rewrite H36 in Hy. nia.
+Qed.
